@@ -12,6 +12,7 @@ func init() {
 	verifRegister("VerifC11_EMap", VerifC11_EMap)
 	verifRegister("VerifC11_EBytes", VerifC11_EBytes)
 	verifRegister("VerifC11_ENew", VerifC11_ENew)
+	verifRegister("VerifC11_EElem", VerifC11_EElem)
 }
 
 // constructors of the base value a (three symbolic elements e0 e1 e2); several leave spare capacity
@@ -350,9 +351,16 @@ var c11MapSources = []string{"(sorted-map)", "(sorted-map \"a\" e0)", "(let ((m 
 
 func VerifC11_ENew() {
 	env := newEnv(nil)
-	for _, n := range []string{"e0", "e1", "e2"} {
-		env.PutGlobal(lisp.Symbol(n), lisp.Int(vndInt(n)))
+	var es [3]int
+	for i, n := range []string{"e0", "e1", "e2"} {
+		es[i] = vndInt(n)
+		env.PutGlobal(lisp.Symbol(n), lisp.Int(es[i]))
 	}
+	// the in-place sorts below compare the elements: their relative order is fixed (any e0 < e1 < e2 < 7)
+	// so that a sort is one path and always moves something
+	vAssume(es[0] < es[1])
+	vAssume(es[1] < es[2])
+	vAssume(es[2] < 7)
 	if vndBool("maps") {
 		ci := vConcInt(vndChoice("mctor", len(c11MapCtors)))
 		si := vConcInt(vndChoice("msrc", len(c11MapSources)))
@@ -384,8 +392,8 @@ func VerifC11_ENew() {
 	mut := vConcInt(vndChoice("mutation", 3))
 	switch mut {
 	case 0:
-		c11Load(env, "(stable-sort (lambda (a b) (> (to-string a) (to-string b))) R)")
-		c11Load(env, "(stable-sort (lambda (a b) (< (to-string a) (to-string b))) R)")
+		c11Load(env, "(stable-sort (lambda (a b) (if (and (int? a) (int? b)) (> a b) false)) R)")
+		c11Load(env, "(stable-sort (lambda (a b) (if (and (int? a) (int? b)) (< a b) false)) R)")
 	case 1:
 		c11Load(env, "(if (vector? R) (append! R 99) ())")
 	case 2:
@@ -394,7 +402,84 @@ func VerifC11_ENew() {
 	vAssert(show("S") == s0, "mutating the value a non-mutating constructor returned never changes its source")
 	r0 := show("R")
 	c11Load(env, "(if (vector? S) (append! S 77) ())")
-	c11Load(env, "(stable-sort (lambda (a b) (> (to-string a) (to-string b))) S)")
+	c11Load(env, "(stable-sort (lambda (a b) (if (and (int? a) (int? b)) (> a b) false)) S)")
 	vAssert(show("R") == r0, "nor does mutating the source change the value that was returned")
 	vCover("seqs")
+}
+
+
+// Element identity: a value stored in (or passed through) a container IS that value, not a copy.
+// A sorted map X is handed to every constructor / accessor below; a mutation made through the
+// original reference must be seen through the element fetched from the result, and the other way
+// round ("assoc!, dissoc!, stable-sort change exactly their target and the change is seen through
+// every reference to it").  The same for a list element sorted in place.
+var c11ElemCtors = [][2]string{
+	{"(cons X S)", "(car R)"}, {"(list X 1)", "(car R)"}, {"(vector 1 X)", "(nth R 1)"},
+	{"(append 'list S X)", "(nth R (- (length R) 1))"}, {"(append 'vector S X)", "(nth R (- (length R) 1))"},
+	{"(append! (vector 1) X)", "(nth R 1)"},
+	{"(insert-index 'list S 0 X)", "(car R)"}, {"(insert-index 'vector S 1 X)", "(nth R 1)"},
+	{"(insert-sorted 'list (list) (lambda (a b) true) X)", "(car R)"},
+	{"(insert-sorted 'list (list (sorted-map \"id\" -5)) (lambda (a b) (< (get a \"id\") (get b \"id\"))) X)", "(nth R 1)"},
+	{"(insert-sorted 'vector (vector (sorted-map \"id\" 100)) (lambda (a b) (< (get a \"id\") (get b \"id\"))) X)", "(nth R 0)"},
+	{"(concat 'list (list X) S)", "(car R)"}, {"(concat 'vector S (vector X))", "(nth R (- (length R) 1))"},
+	{"(reverse 'list (list X 1))", "(nth R 1)"}, {"(reverse 'vector (vector X 1))", "(nth R 1)"},
+	{"(map 'list (lambda (e) e) (list X))", "(car R)"}, {"(map 'vector identity (vector X))", "(nth R 0)"},
+	{"(select 'list (lambda (e) true) (list X))", "(car R)"}, {"(reject 'vector (lambda (e) false) (vector X))", "(nth R 0)"},
+	{"(zip 'list (list X) (list 1))", "(car (car R))"},
+	{"(assoc (sorted-map) \"k\" X)", "(get R \"k\")"}, {"(assoc! (sorted-map \"a\" 1) \"k\" X)", "(get R \"k\")"},
+	{"(sorted-map \"k\" X)", "(get R \"k\")"}, {"(dissoc (sorted-map \"k\" X \"j\" 1) \"j\")", "(get R \"k\")"},
+	{"(slice 'list (list 1 X 2) 1 2)", "(car R)"}, {"(slice 'vector (vector 1 X 2) 1 3)", "(nth R 0)"},
+	{"(cdr (list 1 X))", "(car R)"}, {"(rest (vector 1 X))", "(nth R 0)"},
+	{"(list (nth (list 1 X) 1))", "(car R)"}, {"(list (first (list X)))", "(car R)"}, {"(list (second (vector 1 X)))", "(car R)"},
+	{"(list (get (sorted-map \"k\" X) \"k\"))", "(car R)"}, {"(list (funcall (lambda (a) a) X))", "(car R)"},
+	{"(apply list X '())", "(car R)"}, {"(let ((y X)) (list y))", "(car R)"}, {"(list (aref (vector X) 0))", "(car R)"},
+	{"(list (foldl (lambda (acc e) e) () (list X)))", "(car R)"}, {"(list (foldr (lambda (e acc) e) () (list X)))", "(car R)"},
+	{"(stable-sort (lambda (a b) false) (list X))", "(car R)"}, {"(list (car (list X)))", "(car R)"},
+	{"(list (thread-first X (identity)))", "(car R)"}, {"(list (or () X))", "(car R)"}, {"(list (if true X ()))", "(car R)"},
+	{"(list (cond (true X)))", "(car R)"}, {"(list (progn 1 X))", "(car R)"}, {"(list (car (keys-vals X)))", "X"},
+}
+
+func VerifC11_EElem() {
+	env := newEnv(nil)
+	env.PutGlobal(lisp.Symbol("e0"), lisp.Int(vndInt("e0")))
+	ci := vConcInt(vndChoice("ctor", len(c11ElemCtors)-1))
+	kind := vConcInt(vndChoice("elem", 2))
+	src := vConcInt(vndChoice("src", 2))
+	srcs := []string{"(list 1 2)", "(vector 1 2)"}
+	var mk string
+	if kind == 0 {
+		mk = "(set 'X (sorted-map \"id\" 7 \"v\" e0))"
+	} else {
+		mk = "(set 'X (list 3 e0 2 1))"
+	}
+	ctor, acc := c11ElemCtors[ci][0], c11ElemCtors[ci][1]
+	if kind == 1 && (ci == 9 || ci == 10) {
+		vCover("n/a") // the ordering lambda of these two reads a map key
+		return
+	}
+	r := c11Load(env, mk+" (set 'S "+srcs[src]+") (set 'R "+ctor+")")
+	vObserve("ctor", ctor)
+	if r.Type == lisp.LError {
+		vCover("refused") // e.g. append 'list on a vector source is fine, but some constructor/source pairs are not defined
+		return
+	}
+	if kind == 0 {
+		m := c11Load(env, "(assoc! X \"new\" 41) (get "+acc+" \"new\")")
+		vAssert(m.Type == lisp.LInt && m.Int == 41, "a change made through the original reference is seen through the stored element: "+ctor+" gave "+outcome(m))
+		m = c11Load(env, "(assoc! "+acc+" \"back\" 42) (get X \"back\")")
+		vAssert(m.Type == lisp.LInt && m.Int == 42, "a change made through the stored element is seen through the original reference: "+ctor+" gave "+outcome(m))
+		m = c11Load(env, "(dissoc! X \"id\") (key? "+acc+" \"id\")")
+		vAssert(m.Type == lisp.LSymbol && !lisp.True(m), "dissoc! through one reference is seen through the other: "+outcome(m))
+		m = c11Load(env, "(get "+acc+" \"v\")")
+		vAssert(m.Type == lisp.LInt && m.Int == env.GetGlobal(lisp.Symbol("e0")).Int, "the stored element holds the element's data")
+	} else {
+		m := c11Load(env, "(stable-sort < X) (equal? X "+acc+")")
+		vAssert(m.Type == lisp.LSymbol && lisp.True(m), "an in-place sort of the element is seen through the container: "+ctor)
+		m = c11Load(env, "(stable-sort > "+acc+") (equal? X "+acc+")")
+		vAssert(m.Type == lisp.LSymbol && lisp.True(m), "an in-place sort through the container is seen through the original reference: "+ctor)
+		m = c11Load(env, "(list (nth X 0) (nth X 3) (length X))")
+		w := c11Load(env, "(let ((l (list 3 e0 2 1))) (stable-sort > l) (list (nth l 0) (nth l 3) (length l)))")
+		vAssert(m.String() == w.String(), "and the element is sorted as a fresh copy of it would be")
+	}
+	vCover("end")
 }
